@@ -12,7 +12,7 @@ sorted. Conditions become sets of atoms (rules/atoms.py conventions:
 Rules that must hold "for both colours" evaluate their obligations once per
 colour under env = {side: WHITE} and {side: BLACK}; `side == WHITE ? a : b`
 and `side == BLACK ? b : a` are then the same thing."""
-from prog import kids, short
+from prog import kids, short, walk
 from rules.common import strip_casts
 from rules.effects import single_def, reaching_def
 
@@ -36,7 +36,7 @@ def _type(n):
 
 
 class Norm:
-    def __init__(self, f, env=None, inline=True, names=None, accessors=False):
+    def __init__(self, f, env=None, inline=True, names=None, accessors=False, keep=()):
         self.f = f
         self.env = env or {}
         self.inline = inline
@@ -44,6 +44,7 @@ class Norm:
         self._depth = 0
         self.subst = {}                   # parameter name -> canonical string of the argument (inlined helper)
         self.this_prefix = ''             # object the inlined method was called on ('' = the caller's own object)
+        self.keep = set(keep)             # locals never replaced by their definition
         self.accessors = accessors        # also read through field accessors `T f() const { return <expr over fields>; }`
 
     # ---- stripping ----------------------------------------------------------------------------------------------------
@@ -58,7 +59,7 @@ class Norm:
         seen = 0
         while n is not None and seen < 8:
             r = n.get('ref')
-            if r and r['k'] == 'Local' and r['n'] not in self.env:
+            if r and r['k'] == 'Local' and r['n'] not in self.env and r['n'] not in self.keep:
                 if not self.inline:
                     # names are kept, except locals the reference tree did not have
                     fl = getattr(self.f, 'frozen_locals', None)
@@ -69,13 +70,70 @@ class Norm:
                     d = reaching_def(self.f, n)
                 if d is None and self.env:
                     d = self.feasible_def(n)
-                if d is None:
+                if d is None or not self.stable_between(d, n):
                     break
                 n = self.strip(d)
                 seen += 1
             else:
                 break
         return n
+
+    _STABLE = {}
+
+    def stable_between(self, d, use):
+        """the memory that definition `d` reads is not written between the definition and the use, so that the definition may
+        stand in for the variable there (fields and globals; a call to a non-const member function of the object counts as
+        writing all of its fields)"""
+        f = self.f
+        key = (f.id, d['i'], use['i'])
+        if key in Norm._STABLE:
+            return Norm._STABLE[key]
+        fields = set()
+        for x in walk(d):
+            r = x.get('ref') or {}
+            if r.get('k') in ('Field', 'Global', 'StaticMember'):
+                fields.add(r['n'])
+        ok = True
+        if fields:
+            from prog import access_kind
+            anchor = d
+            par = f.parent(anchor)
+            while par is not None and par['k'] not in ('VarDecl', 'BinaryOperator', 'CXXOperatorCallExpr', 'DeclStmt', 'CompoundStmt'):
+                anchor = par
+                par = f.parent(par)
+            anchor = par if par is not None and par['k'] in ('VarDecl', 'BinaryOperator', 'CXXOperatorCallExpr') else anchor
+            owners = {x.rsplit('::', 1)[0] for x in fields}
+            clob = []
+            for x in f.all_nodes():
+                r = x.get('ref') or {}
+                if r.get('k') in ('Field', 'Global', 'StaticMember') and r['n'] in fields and \
+                        access_kind(f, x) in ('write', 'rmw', 'addr', 'call'):
+                    clob.append(x)
+                c = x.get('callee')
+                if c and x['k'] == 'CXXMemberCallExpr' and not c.get('const') and c.get('n', '').rsplit('::', 1)[0] in owners:
+                    obj = kids(kids(x)[0]) if kids(x) and kids(kids(x)[0]) else []
+                    if not obj or self.strip(obj[0])['k'] == 'CXXThisExpr':
+                        clob.append(x)
+            cfg = f.cfg
+            try:
+                pa = cfg.position(anchor)
+                uid = {use['i']} | {a['i'] for a in f.ancestors(use)}
+                for cnode in clob:
+                    if f.inside(cnode, anchor) or f.inside(use, cnode):
+                        continue
+                    pc = cfg.position(cnode)
+                    if pa is None or pc is None:
+                        ok = False
+                        break
+                    # written after the definition and before the use?
+                    if cfg.path_avoiding(pa, set(), {cnode['i']} | {a['i'] for a in f.ancestors(cnode)}) is not None and \
+                            cfg.path_avoiding(pc, set(), uid) is not None:
+                        ok = False
+                        break
+            except Exception:
+                ok = False
+        Norm._STABLE[key] = ok
+        return ok
 
     def feasible_def(self, use):
         """when all but one definition of a local sit in branches that the environment rules out, that one"""
